@@ -108,6 +108,9 @@ def check_state(state):
 def oracle(case, real):
   if real['init'] == 'err':
     return None
+  for i, s in enumerate(real['steps']):
+    if s.get('orig_same') is False:
+      return {'where': f'step{i}', 'what': 'copy_with modified the original configuration'}
   states = [('init', None, real['init'])] + [
       (f'step{i}', case['ops'][i], s['state']) for i, s in enumerate(real['steps'])]
   suspended_ever = False
